@@ -4,8 +4,8 @@ import (
 	"bytes"
 	"fmt"
 	"io"
-	"os"
 	"net"
+	"os"
 	"sync"
 	"sync/atomic"
 	"time"
@@ -17,7 +17,7 @@ import (
 
 // Behaviour of one scripted full node.
 type Behaviour struct {
-	Kind    string // honest liarHeaders lighterFork liarCFHeaders liarCFCheckpt liarCFilter silent noServices disconnectAt garbage
+	Kind    string // honest liarHeaders lighterFork liarCFHeaders liarCFCheckpt liarCFilter silent emptyHeaders noServices disconnectAt garbage noCF noCFilters
 	H       int    // height of the lie / checkpoint index / message count before the disconnect / fork depth
 	N       int    // lighterFork: branch length
 	Variant string // liarHeaders: pow|unlinked ; noServices: cf|witness ; liarCFHeaders: inconsistent|consistent ; liarCFCheckpt: only|consistent
@@ -389,6 +389,9 @@ func (s *session) handle(m wire.Message) {
 
 	case *wire.MsgGetCFCheckpt:
 		atomic.AddInt32(&p.GotGetCFCheckpt, 1)
+		if p.B.Kind == "noCF" {
+			return
+		}
 		tip := p.tip()
 		stop := p.onMyChain(msg.StopHash, tip)
 		if stop == nil || !stop.Valid {
@@ -410,6 +413,9 @@ func (s *session) handle(m wire.Message) {
 
 	case *wire.MsgGetCFHeaders:
 		atomic.AddInt32(&p.GotGetCFHeaders, 1)
+		if p.B.Kind == "noCF" {
+			return
+		}
 		tip := p.tip()
 		stop := p.onMyChain(msg.StopHash, tip)
 		// like btcd: no answer when the range is empty or exceeds one message
@@ -436,6 +442,9 @@ func (s *session) handle(m wire.Message) {
 
 	case *wire.MsgGetCFilters:
 		atomic.AddInt32(&p.GotGetCFilters, 1)
+		if p.B.Kind == "noCF" || p.B.Kind == "noCFilters" {
+			return
+		}
 		tip := p.tip()
 		stop := p.onMyChain(msg.StopHash, tip)
 		if stop == nil || !stop.Valid || int32(msg.StartHeight) > stop.Height ||
